@@ -22,6 +22,8 @@ import (
 
 var (
 	c15LastAlloc  uint64
+	c15LastDur    time.Duration
+	c15LastLen    int
 	c15IfaceTypes map[string]reflect.Type
 )
 
@@ -85,44 +87,80 @@ func c15Hints(s string) []reflect.Type {
 	return out
 }
 
-func c15Exec(op []string) string {
+// c15Measured runs one decode under recover with what it allocated and how long it took recorded.
+func c15Measured(inputLen int, f func() (string, error)) string {
 	var m0, m1 runtime.MemStats
+	runtime.ReadMemStats(&m0)
+	t0 := time.Now()
+	out := tlOutcome(f)
+	c15LastDur = time.Since(t0)
+	runtime.ReadMemStats(&m1)
+	c15LastAlloc = m1.TotalAlloc - m0.TotalAlloc
+	c15LastLen = inputLen
+	return out
+}
+
+func c15DecodeUnknown(bs []byte, hints []reflect.Type) string {
+	return c15Measured(len(bs), func() (string, error) {
+		o, err := tl.DecodeUnknownObject(bs, hints...)
+		if err != nil {
+			return "", err
+		}
+		return dumpAny(o), nil
+	})
+}
+
+func c15DecodeNamed(id uint32, bs []byte) string {
+	c := reg.ByID()[id]
+	if c == nil || c.Kind != "struct" {
+		return "bad-op"
+	}
+	return c15Measured(len(bs), func() (string, error) {
+		res := reflect.New(c.Type.Elem())
+		err := tl.Decode(bs, res.Interface())
+		return dumpVal(res), err
+	})
+}
+
+func c15Exec(op []string) string {
 	switch op[0] {
 	case "c15.par":
 		return c15ParExec(op)
 	case "c15.unk":
-		bs := parseBytes(op[1])
-		hints := c15Hints(op[2])
-		runtime.ReadMemStats(&m0)
-		out := tlOutcome(func() (string, error) {
-			o, err := tl.DecodeUnknownObject(bs, hints...)
-			if err != nil {
-				return "", err
-			}
-			return dumpAny(o), nil
-		})
-		runtime.ReadMemStats(&m1)
-		c15LastAlloc = m1.TotalAlloc - m0.TotalAlloc
-		return out
+		return c15DecodeUnknown(parseBytes(op[1]), c15Hints(op[2]))
 	case "c15.named":
 		var id uint32
 		fmt.Sscanf(op[1], "%x", &id)
-		c := reg.ByID()[id]
-		if c == nil || c.Kind != "struct" {
+		return c15DecodeNamed(id, parseBytes(op[2]))
+	case "c15.nest", "c15.rep":
+		bs, hints, named, ok := c15DeepInput(op)
+		if !ok {
 			return "bad-op"
 		}
-		bs := parseBytes(op[2])
-		runtime.ReadMemStats(&m0)
-		out := tlOutcome(func() (string, error) {
-			res := reflect.New(c.Type.Elem())
-			err := tl.Decode(bs, res.Interface())
-			return dumpVal(res), err
-		})
-		runtime.ReadMemStats(&m1)
-		c15LastAlloc = m1.TotalAlloc - m0.TotalAlloc
-		return out
+		if op[0] == "c15.nest" && !c15NestSelfCheck(op) {
+			return "bad-op:compress/gzip does not read the stored members back"
+		}
+		if named != 0 {
+			return c15DecodeNamed(named, bs)
+		}
+		return c15DecodeUnknown(bs, c15Hints(hints))
 	}
 	return "bad-op"
+}
+
+// c15Inflated: the sum of the lengths of what the packed objects of a gzip table (`comp:plain;…`, hex)
+// inflate to - recorded by the generator with compress/gzip, not by the code under test.
+func c15Inflated(gz string) int {
+	if gz == "-" {
+		return 0
+	}
+	total := 0
+	for _, e := range strings.Split(gz, ";") {
+		if i := strings.IndexByte(e, ':'); i >= 0 && e[i+1:] != "-" {
+			total += len(e[i+1:]) / 2
+		}
+	}
+	return total
 }
 
 func c15Judge(op []string, out string) string {
@@ -132,13 +170,24 @@ func c15Judge(op []string, out string) string {
 	if strings.HasPrefix(out, "panic") {
 		return "decoding panicked"
 	}
-	bs := parseBytes(op[1+b2i(op[0] == "c15.named")])
-	gz := op[len(op)-1]
-	if gz == "-" {
-		// proportional allocation: a generous linear bound (decoded values are Go structs, dumping not included)
-		if c15LastAlloc > 4<<20+uint64(len(bs))*2048 {
-			return fmt.Sprintf("decoding %d bytes allocated %d bytes", len(bs), c15LastAlloc)
-		}
+	if strings.HasPrefix(out, "bad-op") {
+		return ""
+	}
+	inflated := 0
+	switch op[0] {
+	case "c15.unk", "c15.named":
+		inflated = c15Inflated(op[len(op)-1])
+	case "c15.nest":
+		// stored blocks: no level inflates to more than it holds; what the decoder may open is a few levels
+		// of at most the length of the input each - paid for by the factor of the input length
+	}
+	if c15LastDur > c15MaxDur {
+		return fmt.Sprintf("decoding %d bytes took %v", c15LastLen, c15LastDur.Round(time.Millisecond))
+	}
+	// allocation in proportion to the input and to what its packed objects really inflate to
+	if bound := c15AllocBound(c15LastLen, inflated); c15LastAlloc > bound {
+		return fmt.Sprintf("decoding %d bytes (packed objects in it inflate to %d bytes) allocated %d bytes (bound %d)",
+			c15LastLen, inflated, c15LastAlloc, bound)
 	}
 	return ""
 }
@@ -203,7 +252,8 @@ func gzTable(b []byte) string {
 	tbl := map[string]string{}
 	var scan func(b []byte, depth int)
 	scan = func(b []byte, depth int) {
-		if depth > 3 {
+		// a decoder opens at most maxNestedDecoders = 4 levels and unpacks (then refuses) a fifth
+		if depth > 4 {
 			return
 		}
 		for off := 0; off+4 <= len(b); off += 4 {
@@ -484,6 +534,24 @@ func c15Gen(g *G) {
 		}
 		emitUnk(c15cat(le32(0x3072cfa1), tlString(z)), "-", "gzip-corrupted")
 	}
+	// gzip members that no gzip writer makes: every header / trailer field changed (c15deep.go)
+	c15GzipMutGen(g, emitUnk)
+	// packed objects nested deeper (real compression; the stored-block variant of c15deep.go goes to thousands)
+	{
+		x := pong
+		for n := 1; n <= 8; n++ {
+			x = c15cat(le32(0x3072cfa1), tlString(goGzip(x)))
+			emitUnk(x, "-", "gzip-nested-compressed")
+			emitUnk(c15cat(le32(0xf35c6d01), le64(uint64(n)), x), "-", "gzip-nested-compressed-in-rpc-result")
+		}
+		// a packed object that really inflates: a long run of zero bytes inside an rpc_error message
+		for _, n := range []int{1 << 12, 1 << 16, g.N(1<<18, 1<<21)} {
+			big := c15cat(le32(0x2144ca19), le32(400), c15TLString(make([]byte, n)))
+			emitUnk(c15cat(le32(0x3072cfa1), tlString(goGzip(big))), "-", "gzip-really-inflating")
+		}
+	}
+	// deep and maximal-count inputs (c15deep.go)
+	c15DeepGen(g)
 	// byte strings with hostile length headers inside rpc_error / msgs_state_info
 	for _, hdr := range [][]byte{{0xfe, 0xff, 0xff, 0xff}, {0xfe, 0, 0, 0}, {0xff}, {0xfd}, {0xfe, 0xff, 0xff}, {0xfe}, {0x05, 1, 2}, {0x03, 1, 2, 3}, {0x02, 1, 2, 9}} {
 		emitUnk(c15cat(le32(0x2144ca19), le32(400), hdr, r.Bytes(8)), "-", "string-header-hostile")
